@@ -5,6 +5,25 @@ from . import spec as S
 from .vals import *
 
 
+_qcache = {}
+
+
+def has_quantifier(e):
+    k = e.get_id()
+    if k in _qcache:
+        return _qcache[k]
+    r = False
+    if z3.is_quantifier(e):
+        r = True
+    else:
+        for ch in e.children():
+            if has_quantifier(ch):
+                r = True
+                break
+    _qcache[k] = r
+    return r
+
+
 class Unsupported(Exception):
     pass
 
@@ -101,8 +120,13 @@ class PathRun:
         return s
 
     def feasible(self, cond):
-        s = self._solver(self.d.budget.feas_ms)
-        s.add(*self.pc)
+        # over-approximation: quantified facts and background axioms are left out (a path that is
+        # only infeasible because of them is explored anyway; its obligations then hold trivially)
+        s = z3.Solver()
+        s.set('timeout', self.d.budget.feas_ms)
+        for c in self.pc:
+            if not has_quantifier(c):
+                s.add(c)
         s.add(cond)
         t0 = time.time()
         r = s.check()
@@ -180,6 +204,7 @@ class PathRun:
                 s = self._solver(self.d.budget.timeout_ms)
                 s.add(*self.pc)
                 s.add(z3.Not(goal))
+                s.add(*ground_axioms(self.pc + [goal]))
                 t0 = time.time()
                 r = str(s.check())
                 dt = time.time() - t0
@@ -213,6 +238,7 @@ class PathRun:
             return
         s = self._solver(self.d.budget.timeout_ms)
         s.add(*self.pc)
+        s.add(*ground_axioms(self.pc))
         t0 = time.time()
         r = str(s.check())
         dt = time.time() - t0
@@ -305,14 +331,7 @@ class PathRun:
         if isinstance(v, STuple): return z3.BoolVal(bool(v.elems))
         if isinstance(v, (SObj, SClass, SFunc, SBuiltin, SDate, SModule)): return z3.BoolVal(True)
         if isinstance(v, SDyn):
-            t = v.t
-            return z3.If(Val.is_VNone(t), False,
-                   z3.If(Val.is_VBool(t), Val.b(t),
-                   z3.If(Val.is_VInt(t), Val.i(t) != 0,
-                   z3.If(Val.is_VDec(t), Val.d(t) != int2dec(0),
-                   z3.If(Val.is_VStr(t), z3.Length(Val.s(t)) > 0,
-                   z3.If(Val.is_VSeq(t), z3.Length(items(Val.h(t))) > 0,
-                   z3.If(Val.is_VObj(t), obj_truthy(Val.o(t)), True)))))))
+            return truthyV(v.t)
         raise Unsupported(f'truthy({v!r})')
 
     def is_none(self, v):
